@@ -129,7 +129,7 @@ impl DiskReadScheduler {
 
                     let _token = self.reader_semaphore.access();
                     #[cfg(locustdb_verif)]
-                    crate::verif::gate("load:before_read", handle.name());
+                    crate::verif::gate("load:before_read", handle.table());
                     match self.disk_store.load_column(
                         &handle.key().table,
                         handle.id(),
